@@ -2,6 +2,7 @@ package main
 
 import (
 	"fmt"
+	"go/token"
 	"strings"
 
 	"golang.org/x/tools/go/ssa"
@@ -9,8 +10,8 @@ import (
 
 func init() {
 	register(&propDef{
-		ID:  "C17",
-		Run: ruleC17,
+		ID:          "C17",
+		Run:         ruleC17,
 		Explanation: "Decides the acquire/release pairing of the downloaded temp files on every control-flow exit (structural necessary condition of C17): after a successful os.CreateTemp every error return of the per-host download removes that file; every error return of the host loop deletes the files downloaded so far; in the redact command every path from a successful download to the closure's return is covered by a registered defer that deletes the files and every path to os.Exit passes a direct delete call (defers do not run on os.Exit - modelled); the delete helper removes every element and never stops early; no other file-creating call is reachable from the download. NOT decided: signals/SIGKILL, panics inside libraries, OS temp-dir semantics.",
 		RuleText:    "obligations = CreateTemp sites, error returns in the host loop, exits/returns reachable after the download's err==nil edge, the delete loop, file-creating calls reachable from the download; discharged by CFG must-pass-through queries with defer modelling",
 	})
@@ -223,7 +224,7 @@ func ruleC17(c *Ctx, r *Report) {
 					return false
 				}
 				for _, arg := range cc.Args {
-					if derivesFrom(arg, filesVal, 0) {
+					if isWholeValue(arg, filesVal, 0) {
 						return true
 					}
 				}
@@ -240,10 +241,19 @@ func ruleC17(c *Ctx, r *Report) {
 				var filesFree ssa.Value
 				for i, b := range mc.Bindings {
 					if al, ok := b.(*ssa.Alloc); ok {
+						// the captured variable must hold the whole download result at all
+						// times: every store into it is that value itself (never a sub-slice)
+						nStores, whole := 0, true
 						for _, rr := range referrers(al) {
-							if st, ok := rr.(*ssa.Store); ok && derivesFrom(st.Val, filesVal, 0) {
-								filesFree = cf.FreeVars[i]
+							if st, ok := rr.(*ssa.Store); ok && st.Addr == ssa.Value(al) {
+								nStores++
+								if !isWholeValue(st.Val, filesVal, 0) {
+									whole = false
+								}
 							}
+						}
+						if nStores > 0 && whole {
+							filesFree = cf.FreeVars[i]
 						}
 					}
 				}
@@ -425,4 +435,45 @@ func exitContext(c *Ctx, i ssa.Instruction) string {
 		}
 	}
 	return "unconditional"
+}
+
+// isWholeValue: v is src itself, seen through copies only (no slicing, no append): phis
+// all of whose edges are src, loads of locals all of whose stores are src.
+func isWholeValue(v, src ssa.Value, depth int) bool {
+	if v == src {
+		return true
+	}
+	if depth > 10 {
+		return false
+	}
+	switch x := v.(type) {
+	case *ssa.ChangeType:
+		return isWholeValue(x.X, src, depth+1)
+	case *ssa.Phi:
+		for _, e := range x.Edges {
+			if !isWholeValue(e, src, depth+1) {
+				return false
+			}
+		}
+		return len(x.Edges) > 0
+	case *ssa.UnOp:
+		if x.Op != token.MUL {
+			return false
+		}
+		al, ok := x.X.(*ssa.Alloc)
+		if !ok {
+			return false
+		}
+		n := 0
+		for _, rr := range referrers(al) {
+			if st, ok := rr.(*ssa.Store); ok && st.Addr == ssa.Value(al) {
+				n++
+				if !isWholeValue(st.Val, src, depth+1) {
+					return false
+				}
+			}
+		}
+		return n > 0
+	}
+	return false
 }
